@@ -85,6 +85,10 @@ structure BoolTable where
   operator is used as written, as if the comparison were `len(x) <op> <literal>` (the defect
   `reversedLenCompare`) -/
   lenRevMirrored : Bool := false
+  /-- behaviour of `visit_BoolOp` for `and` (probed on the live tree): `true` = the member values of the
+  `and` expression keep the `ConstraintExtension`s of the operands, so `extract_constraints` can read
+  them back (the defect `nullAbsorbLeak`), `false` = they are stripped -/
+  andValueLeaks : Bool := true
   deriving Repr, Inhabited
 
 namespace BoolTable
@@ -636,7 +640,9 @@ def BCond.cv (T : BoolTable) : BCond → CVal
   | .other _ => ⟨.null, [.otherK]⟩
   | .opaque _ => ⟨.null, [.null]⟩
   | .not b => ⟨.null, [(b.cv T).ext.invert]⟩
-  | .and bs => ⟨AC.mkAnd (BCond.extL T bs).reverse, BCond.flatL T bs⟩
+  | .and bs =>
+    ⟨AC.mkAnd (BCond.extL T bs).reverse,
+     if T.andValueLeaks then BCond.flatL T bs else (BCond.flatL T bs).map fun _ => .null⟩
   | .or bs => ⟨.null, BCond.flatL T bs⟩
 def BCond.extL (T : BoolTable) : List BCond → List AC
   | [] => []
